@@ -524,7 +524,8 @@ def main(tier="quick", seed=0):
     if faults:
         run.engine_fault = faults[0][-1500:]
     handle_refutations(run, spec)
-    return run.finish(spec, "proof", "per-function contracts transcribed from the property; see DESIGN.md C07")
+    run_bounded(run, PROP, "c07_bounded.py", tier)      # parameter provenance of real SERs (bounded, not proof)
+    return run.finish(spec, "proof", "per-function contracts transcribed from the property; parameter provenance bounded; see DESIGN.md C07")
 
 
 def handle_refutations(run, spec):
